@@ -335,6 +335,7 @@ func runC02(tier string, seed int64, out *Out) {
 	all := []string{"nat", "rev", "coarse"}
 	runC02Type(tier, rng, out, intCodec(), []int{1, 3, 4, 5, 8, 9}, []int{0, 2, 12}, all, &caseID)
 	runC02Type(tier, rng, out, stringCodec(), []int{1, 3, 4, 5, 9}, []int{0, 2, 12}, all, &caseID)
+	runC02Type(tier, rng, out, int64xCodec(), []int{-50, -49, -3, 2, 49, 50}, []int{0, -25, 25}, []string{"nat"}, &caseID)
 	runC02Type(tier, rng, out, sliceCodec(), []int{1, 2, 3, 6, 7}, []int{0, 4, 9}, []string{"nat", "coarse"}, &caseID)
 	runC02Type(tier, rng, out, anyCodec(), []int{249, 250, 251, 501, 502}, []int{0, 252, 503}, []string{"nat", "rev"}, &caseID)
 	runC02Type(tier, rng, out, setSetCodec(), []int{1, 2, 3, 5, 6}, []int{0, 4, 8}, []string{"nat"}, &caseID)
